@@ -278,7 +278,7 @@ func (p *Policy) sanitize(r io.Reader, w io.Writer) error {
 			if !ok {
 				aa, matched := p.matchRegex(token.Data)
 				if !matched {
-					if _, ok := p.setOfElementsToSkipContent[token.Data]; ok {
+					if _, ok := p.setOfElementsToSkipContent[token.Data]; ok && !isVoidElement(token.Data) {
 						skipElementContent = true
 						skippingElementsCount++
 					}
@@ -353,7 +353,7 @@ func (p *Policy) sanitize(r io.Reader, w io.Writer) error {
 						break
 					}
 				}
-				if _, ok := p.setOfElementsToSkipContent[token.Data]; ok && !match {
+				if _, ok := p.setOfElementsToSkipContent[token.Data]; ok && !match && !isVoidElement(token.Data) {
 					skippingElementsCount--
 					if skippingElementsCount == 0 {
 						skipElementContent = false
@@ -1101,4 +1101,16 @@ func normaliseElementName(str string) string {
 type stringWriterWriter interface {
 	io.Writer
 	io.StringWriter
+}
+
+// isVoidElement reports whether the element never has content or an end tag
+// (https://html.spec.whatwg.org/multipage/syntax.html#void-elements plus the
+// obsolete frame, keygen and param)
+func isVoidElement(elementName string) bool {
+	switch elementName {
+	case "area", "base", "br", "col", "embed", "frame", "hr", "img", "input",
+		"keygen", "link", "meta", "param", "source", "track", "wbr":
+		return true
+	}
+	return false
 }
